@@ -78,8 +78,10 @@ func (t TermLocations) MergeOverlapping() {
 			lastTl = tl
 		} else if lastTl != nil && tl != nil {
 			if lastTl.Overlaps(tl) {
-				// ok merge this with previous
-				lastTl.End = tl.End
+				// ok merge this with previous (which may already extend further)
+				if tl.End > lastTl.End {
+					lastTl.End = tl.End
+				}
 				t[i] = nil
 			}
 		}
